@@ -271,147 +271,4 @@ theorem walkPath_snoc_append (p : Str) (init : List Str) (last s : Str) (hp : p 
     List.cons_append]
   rw [render_head_append]
 
-/-! ### runs in place, for every spelling of the input directory -/
-
-theorem plan_tasks_inp_ne (fs : FS) (a : Args) (ts : List (Str × Str)) (h : plan fs a = .tasks ts) :
-    a.inp ≠ [] := by
-  intro e
-  unfold plan at h
-  simp [e] at h
-
-theorem addSep_ne_nil (s : Str) (h : s ≠ []) : addSep s ≠ [] := by
-  unfold addSep
-  split <;> simp [h]
-
-theorem pathOf_inj (inp : Str) (r1 r2 : List Str) (hi : inp ≠ []) (h1 : r1 ≠ []) (h2 : r2 ≠ [])
-    (v1 : ∀ n ∈ r1, ValidName n) (v2 : ∀ n ∈ r2, ValidName n)
-    (h : pathOf inp r1 = pathOf inp r2) : r1 = r2 := by
-  unfold pathOf at h
-  split at h
-  · exact joinSep_inj r1 r2 h1 h2 (noSep_of_valid v1) (noSep_of_valid v2) (List.append_cancel_left h)
-  · exact walkPath_inj _ r1 r2 (addSep_ne_nil inp hi) h1 h2 v1 v2 h
-
-theorem pathOf_snoc_append (inp : Str) (init : List Str) (last s : Str) (hi : inp ≠ [])
-    (hv : ∀ n ∈ init ++ [last], ValidName n) (hv' : ValidName (last ++ s)) :
-    pathOf inp (init ++ [last ++ s]) = pathOf inp (init ++ [last]) ++ s := by
-  unfold pathOf
-  split
-  · rw [joinSep_snoc_append]; simp
-  · exact walkPath_snoc_append _ init last s (addSep_ne_nil inp hi) hv hv'
-
-theorem foutEff_inplace (a : Args) (ho : a.out = []) : foutEff a = [] := by
-  simp [foutEff, ho]
-
-theorem tasks_char_inplace_c (fs : FS) (a : Args) (ts : List (Str × Str)) (hc : a.decomp = false)
-    (ho : a.out = []) (hd : DirInput fs a) (h : plan fs a = .tasks ts) :
-    ∃ kept : List (List Str × Kind), kept.Sublist (fs.tree (rootOf a.inp)) ∧
-      ts = kept.map fun e => (pathOf a.inp e.1, pathOf a.inp e.1 ++ KNZ) := by
-  obtain ⟨kept, hsub, _, hm⟩ := plan_dir_inv fs a ts hd h
-  refine ⟨kept, hsub, ?_⟩
-  rw [hc, foutEff_inplace a ho] at hm
-  have htot := mapTasks_total (oName false true (isSpecial a.out) (finOf a.inp) [])
-    (fun i => i ++ KNZ) (kept.map fun e => pathOf a.inp e.1) (by
-      intro i _
-      exact (paths_roundtrip_inplace true (isSpecial a.out) (finOf a.inp) i).1)
-  rw [htot] at hm
-  injection hm with hm
-  rw [← hm, List.map_map]
-  rfl
-
-/-- compression in place: distinct inputs and distinct outputs whatever the spelling of `-i` -/
-theorem paths_injective_inplace_c (fs : FS) (a : Args) (ts : List (Str × Str)) (hc : a.decomp = false)
-    (ho : a.out = []) (hd : DirInput fs a) (ht : TreeOK (fs.tree (rootOf a.inp)))
-    (h : plan fs a = .tasks ts) : (ts.map (·.1)).Nodup ∧ (ts.map (·.2)).Nodup := by
-  have hi := plan_tasks_inp_ne fs a ts h
-  obtain ⟨kept, hsub, rfl⟩ := tasks_char_inplace_c fs a ts hc ho hd h
-  obtain ⟨hnd, hv⟩ := kept_rels _ kept hsub ht
-  have e1 : (kept.map fun e => (pathOf a.inp e.1, pathOf a.inp e.1 ++ KNZ)).map (·.1)
-      = (kept.map (·.1)).map fun r => pathOf a.inp r := by simp [List.map_map]
-  have e2 : (kept.map fun e => (pathOf a.inp e.1, pathOf a.inp e.1 ++ KNZ)).map (·.2)
-      = (kept.map (·.1)).map fun r => pathOf a.inp r ++ KNZ := by simp [List.map_map]
-  rw [e1, e2]
-  constructor
-  · apply nodup_map_on _ _ hnd
-    intro x hx y hy hxy
-    exact pathOf_inj a.inp x y hi (hv x hx).1 (hv y hy).1 (hv x hx).2 (hv y hy).2 hxy
-  · apply nodup_map_on _ _ hnd
-    intro x hx y hy hxy
-    exact pathOf_inj a.inp x y hi (hv x hx).1 (hv y hy).1 (hv x hx).2 (hv y hy).2
-      (List.append_cancel_right hxy)
-
-/-- compression in place: no output is an input of the run when no entry shadows the compressed
-name of another one, whatever the spelling of `-i` -/
-theorem paths_output_not_input_inplace_c (fs : FS) (a : Args) (ts : List (Str × Str))
-    (hc : a.decomp = false) (ho : a.out = []) (hd : DirInput fs a)
-    (ht : TreeOK (fs.tree (rootOf a.inp))) (hin : NoShadow (fs.tree (rootOf a.inp)))
-    (h : plan fs a = .tasks ts) : ∀ t ∈ ts, ∀ u ∈ ts, t.2 ≠ u.1 := by
-  have hi := plan_tasks_inp_ne fs a ts h
-  obtain ⟨kept, hsub, rfl⟩ := tasks_char_inplace_c fs a ts hc ho hd h
-  intro t htm u hum heq
-  obtain ⟨e, he, rfl⟩ := List.mem_map.mp htm
-  obtain ⟨e', he', rfl⟩ := List.mem_map.mp hum
-  simp only at heq
-  obtain ⟨hne, hv⟩ := ht.2 e (hsub.subset he)
-  obtain ⟨hne', hv'⟩ := ht.2 e' (hsub.subset he')
-  obtain ⟨init, last, hr⟩ := rel_split e.1 hne
-  have hvl : ValidName last := hv last (by rw [hr]; simp)
-  have hvr : ∀ n ∈ init ++ [last], ValidName n := by rw [← hr]; exact hv
-  have hv2 : ∀ n ∈ init ++ [last ++ KNZ], ValidName n := by
-    intro n hn
-    rcases List.mem_append.mp hn with hn | hn
-    · exact hv n (by rw [hr]; simp [hn])
-    · have : n = last ++ KNZ := by simpa using hn
-      rw [this]; exact valid_append_knz last hvl
-  have hsn := pathOf_snoc_append a.inp init last KNZ hi hvr (valid_append_knz last hvl)
-  rw [hr, ← hsn] at heq
-  have := pathOf_inj a.inp _ _ hi (by simp) hne' hv2 hv' heq
-  apply hin e (hsub.subset he) e' (hsub.subset he')
-  rw [← this, joinSep_snoc_append, ← hr]
-
-/-- decompression in place of a tree in which every name ends with `.knz`: distinct outputs,
-whatever the spelling of `-i` -/
-theorem paths_injective_inplace_d (fs : FS) (a : Args) (ts : List (Str × Str)) (hc : a.decomp = true)
-    (ho : a.out = []) (hd : DirInput fs a)
-    (hnd : ((fs.tree (rootOf a.inp)).map (·.1)).Nodup) (hk : KnzTree (fs.tree (rootOf a.inp)))
-    (h : plan fs a = .tasks ts) : (ts.map (·.2)).Nodup := by
-  have hi := plan_tasks_inp_ne fs a ts h
-  obtain ⟨kept, hsub, _, hm⟩ := plan_dir_inv fs a ts hd h
-  rw [hc, foutEff_inplace a ho] at hm
-  have ht : TreeOK (fs.tree (rootOf a.inp)) := ⟨hnd, knz_tree_ok _ hk⟩
-  obtain ⟨hnd', hv⟩ := kept_rels _ kept hsub ht
-  have htot := mapTasks_total (oName true true (isSpecial a.out) (finOf a.inp) [])
-    (fun i => dName i) (kept.map fun e => pathOf a.inp e.1) (by
-      intro i _
-      simp [oName])
-  rw [htot] at hm
-  injection hm with hm
-  rw [← hm]
-  have e2 : ((kept.map fun e => pathOf a.inp e.1).map fun i => (i, dName i)).map (·.2)
-      = (kept.map (·.1)).map fun r => dName (pathOf a.inp r) := by simp [List.map_map]
-  rw [e2]
-  -- the stripped name is the reported name of the entry without its `.knz`
-  have key : ∀ r ∈ kept.map (·.1), ∃ init stem, r = init ++ [stem ++ KNZ] ∧
-      (∀ n ∈ init ++ [stem], ValidName n) ∧ dName (pathOf a.inp r) = pathOf a.inp (init ++ [stem]) := by
-    intro r hr
-    obtain ⟨e, he, rfl⟩ := List.mem_map.mp hr
-    obtain ⟨init, stem, k1, k2, k3⟩ := hk e (hsub.subset he)
-    have hvs : ∀ n ∈ init ++ [stem], ValidName n := by
-      intro n hn
-      rcases List.mem_append.mp hn with hn | hn
-      · exact k3 n hn
-      · have : n = stem := by simpa using hn
-        rw [this]; exact k2
-    refine ⟨init, stem, k1, hvs, ?_⟩
-    rw [k1, pathOf_snoc_append a.inp init stem KNZ hi hvs (valid_append_knz stem k2), dName_knz]
-  apply nodup_map_on _ _ hnd'
-  intro x hx y hy hxy
-  obtain ⟨i1, s1, e1, v1, d1⟩ := key x hx
-  obtain ⟨i2, s2, e2', v2, d2⟩ := key y hy
-  rw [d1, d2] at hxy
-  have := pathOf_inj a.inp _ _ hi (by simp) (by simp) v1 v2 hxy
-  have hsplit := List.append_inj' this (by simp)
-  rw [e1, e2', hsplit.1]
-  have : s1 = s2 := by simpa using hsplit.2
-  rw [this]
-
 end Kanzi.CliPaths
